@@ -9,7 +9,7 @@
    chunks, the last one shorter, empty when the length is a multiple of 16), [page_server ids p] = a BMC
    holding [ids] for an entity and serving them [p] per response. *)
 From BMC Require Import Base Prim Proc Dispatch EnumProofs EnumTermination PipelineTotal.
-From BMCProps Require Import Tie.
+From BMCProps Require Import TieProc.
 
 (* ---- cipher suites ---- *)
 Theorem C16_cipher_suites_complete_ordered : forall rs, Forall wf rs -> (length (encode_records rs) < 16 * 64)%nat ->
